@@ -1073,6 +1073,9 @@ impl<'a> Lexer<'a> {
                 }
             }
 
+            // Where the first character ends, which may be written as an escape sequence
+            let first_end = self.loc;
+
             match c {
                 // Backwards compatibility
                 "∶" => self.end(Primitive::Flip, start),
@@ -1431,33 +1434,45 @@ impl<'a> Lexer<'a> {
                     while let Some(ch) = self.next_char_if(|c| "!‼".contains(c)) {
                         ident.push_str(ch);
                     }
+                    // Locate the boundaries between the ident's characters in the input
+                    let mut bounds = vec![(0, start), (c.len(), first_end)];
+                    let end = self.loc;
+                    self.loc = first_end;
+                    while self.loc.char_pos < end.char_pos {
+                        let Some(seg) = self.next_char() else {
+                            break;
+                        };
+                        bounds.push((bounds.last().unwrap().0 + seg.len(), self.loc));
+                    }
+                    self.loc = end;
+                    let loc_at = |i: usize| {
+                        (bounds.iter().find(|(j, _)| *j == i)).map(|(_, loc)| *loc)
+                    };
                     // Try to parse as primitives
                     let lowercase_end = ident
                         .char_indices()
                         .find(|(_, c)| !c.is_lowercase() && !"&!".contains(*c))
                         .map_or(ident.len(), |(i, _)| i);
+                    // Only split between characters of the input
+                    let lowercase_end = (bounds.iter().map(|(i, _)| *i))
+                        .take_while(|&i| i <= lowercase_end)
+                        .last()
+                        .unwrap_or(0);
                     let lowercase = &ident[..lowercase_end];
-                    if let Some(prims) = split_name(lowercase) {
-                        let first_start = start;
+                    let split = split_name(lowercase).and_then(|prims| {
+                        let mut ends = Vec::with_capacity(prims.len());
+                        let mut i = 0;
+                        for (k, (_, frag)) in prims.iter().enumerate() {
+                            i += frag.len();
+                            let last = k == prims.len() - 1;
+                            ends.push(loc_at(if last { lowercase_end } else { i })?);
+                        }
+                        let ordered = ends.windows(2).all(|w| w[0].char_pos <= w[1].char_pos);
+                        ordered.then_some((prims, ends))
+                    });
+                    if let Some((prims, ends)) = split {
                         let mut start = start;
-                        let prim_count = prims.len();
-                        for (i, (prim, frag)) in prims.into_iter().enumerate() {
-                            let end = if i < prim_count - 1 {
-                                Loc {
-                                    col: start.col + frag.chars().count() as u16,
-                                    char_pos: start.char_pos + frag.chars().count() as u32,
-                                    byte_pos: start.byte_pos + frag.len() as u32,
-                                    ..start
-                                }
-                            } else {
-                                Loc {
-                                    col: first_start.col + lowercase.chars().count() as u16,
-                                    char_pos: first_start.char_pos
-                                        + lowercase.chars().count() as u32,
-                                    byte_pos: first_start.byte_pos + lowercase.len() as u32,
-                                    ..first_start
-                                }
-                            };
+                        for ((prim, _), end) in prims.into_iter().zip(ends) {
                             let tok = match prim {
                                 PrimComponent::Prim(prim) => Glyph(prim),
                                 PrimComponent::PrimExclam(prim) => PrimExclam(prim),
